@@ -2229,7 +2229,17 @@ impl Context {
             }
             Expr::Block(b) => {
                 if let Some(block) = b {
-                    self.eval_expr(*block)
+                    // A block is a scope of its own (the type checker already treats it as
+                    // one): bindings made inside end with the block, so a `let` that shadows
+                    // an outer variable must not replace it for the code after the block.
+                    // Scopes of `valenv` are function levels (they decide what is an upvalue),
+                    // so the bindings are dropped from the current level instead.
+                    let mark = self.valenv.0.front().map_or(0, |scope| scope.len());
+                    let res = self.eval_expr(*block);
+                    if let Some(scope) = self.valenv.0.front_mut() {
+                        scope.truncate(mark);
+                    }
+                    res
                 } else {
                     (Arc::new(Value::None), unit!(), vec![])
                 }
